@@ -108,7 +108,12 @@ def inventory(fx, bodies):
                     out.append(Site('div0', b, bi, 'divisor %s' % (show(dterm)[:80] if dterm else show(ct)[:80]), t['span'], t['macros'],
                                     {'divisor': dv, 'safe_by_width': safe, 'term': dterm}))
                 elif mk == 'OverflowNeg':
-                    out.append(Site('neg', b, bi, show(r.operand(m['a']))[:80], t['span'], t['macros'], {}))
+                    a = iv.operand(m['a'], (), bi)
+                    rty = m['a'].get('ty') or (m['a']['p']['ty'] if 'p' in m['a'] else None)
+                    tr = IV.ty_range(rty) if rty else None
+                    # -x overflows only for x == MIN
+                    safe = a is not None and tr is not None and a[0] > tr[0]
+                    out.append(Site('neg', b, bi, show(r.operand(m['a']))[:80], t['span'], t['macros'], {'a': a, 'ty': rty, 'safe_by_width': safe}))
                 else:
                     out.append(Site('assert-other', b, bi, m.get('s', mk)[:80], t['span'], t['macros'], {}))
             elif t['k'] == 'call':
